@@ -2,6 +2,7 @@ SPECIFICATION TSpec
 CONSTANTS
   Nodes <- TraceNodes
   R <- TraceR
+  InitK <- TraceR
   MaxEpoch = 0
   MaxID = 0
   G_OnePending = TRUE
